@@ -27,7 +27,7 @@ ASSUMPTIONS = OutHost.CONTRACT + [
     "(USB 2.0 5.8.3); the byte after it starts a transfer",
 ]
 BOUNDS = "BMC from reset; configurations (mps, buffer) = (2,3) [the class default buffer 2*mps-1], (2,2), (3,5) " \
-         "thorough; all host/consumer schedules and data up to K cycles (quick 20, thorough 24: 3 transactions; restricted best-effort layer to 30)"
+         "thorough; all host/consumer schedules and data up to K cycles (quick 20, thorough 24 [22 for mps 3]; the payload-equality assertion 2 less; 3 transactions; restricted best-effort layer to 30)"
 OUTSIDE = "histories longer than K cycles; packets longer than max_packet_size; DATA2/MDATA pids; " \
           "clear-halt during traffic (C14); byte-level framing/CRC (C02 provides the interface contract)"
 
@@ -206,12 +206,16 @@ def queries(tier):
     cfgs = [("m2b3", 2, 3), ("m2b2", 2, 2)] if quick else [("m2b3", 2, 3), ("m2b2", 2, 2), ("m3b5", 3, 5)]
     for tag, mps, buf in cfgs:
         f = (lambda mps=mps, buf=buf: BulkOutHarness(mps, buf))
-        K = 20 if quick else 24
-        qs.append(Query(f"bmc_{tag}", f, K, timeout=900,
+        K = 20 if quick else (24 if mps == 2 else 22)
+        others = [a for a in BulkOutHarness(mps, buf)._viols if a != "data"]
+        qs.append(Query(f"bmc_{tag}", f, K, timeout=900, asserts=others,
                         desc=f"mps={mps} buffer={buf}: host schedule, data, consumer ready all free"))
+        # the payload comparison through the FIFO memory is the expensive assertion: two steps shallower
+        qs.append(Query(f"bmc_data_{tag}", f, K - 2, timeout=900, asserts=["data"], covers=[],
+                        desc=f"mps={mps} buffer={buf}: tracked-element payload equality, everything free"))
         if not quick:
             # deeper restricted layer: consumer always ready, responses exactly one cycle after rx_complete (HS timing)
-            qs.append(Query(f"bmc_hs_ready_{tag}", f, 30, timeout=600, covers=[], required=False,
+            qs.append(Query(f"bmc_hs_ready_{tag}", f, 30, timeout=600, asserts=others, covers=[], required=False,
                             layer={"ready": 1, "resp_go": 1, "tok_rfr_go": 1},
                             desc=f"mps={mps} buffer={buf}: restricted layer -- consumer always ready, response strobes "
                                  "at the earliest cycle (high-speed timing); best effort"))
